@@ -285,16 +285,30 @@ def mark_loop(ctx, rule):
                     for b in e.paths:
                         walk(b.events, loops + [e], conds + [c for c in b.conds])
         walk(p.events, [], [])
-        if not ctx.require(len(marks) == 1, rule, 'update marks positions at one call site inside the portfolio x position loops [%s]' % cond_str(p),
-                           marks[0][0].site if marks else fn.site(), '%d mark sites' % len(marks), key='%s|mark-sites' % rule):
+        if len(marks) != 1:
+            # marks made indirectly (deferred callables, zipped work lists, ...) are outside what this rule reads; nothing is claimed either way
+            ctx.undecided(rule, 'update marks positions at one call site inside the portfolio x position loops [%s]' % cond_str(p)[:80],
+                          marks[0][0].site if marks else fn.site(), '%d direct mark sites' % len(marks))
             continue
         e, loops, conds = marks[0]
-        ok = len(loops) == 2 and fmt(loops[0].iter) in ('self.portfolios', 'self.portfolios.keys()', 'self.portfolios.items()', 'self.portfolios.values()')
+
+        def narrowed(t):
+            # a recognisable restriction of the iteration: a slice, a filtered comprehension, a head/tail helper
+            return any(s_[0] == 'slice' or (s_[0] == 'comp' and any(g_[2] for g_ in s_[3])) or
+                       (s_[0] == 'call' and s_[1] in (('ext', 'itertools.islice'), ('ext', 'builtins.filter'), ('ext', 'itertools.takewhile'))) for s_ in T.subterms(t))
+        ok = len(loops) == 2 and fmt(loops[0].iter) in ('self.portfolios', 'self.portfolios.keys()', 'self.portfolios.items()', 'self.portfolios.values()',
+                                                        'LIST(self.portfolios)', 'LIST(self.portfolios.values())', 'LIST(self.portfolios.keys())', 'LIST(self.portfolios.items())')
+        if not ok and not (loops and narrowed(loops[0].iter)):
+            ctx.undecided(rule, 'the mark loop runs over every portfolio', loops[0].site if loops else e.site, 'unrecognised iteration: %s' % [fmt(l.iter)[:80] for l in loops])
+            continue
         ctx.require(ok, rule, 'the mark loop runs over every portfolio', loops[0].site if loops else e.site, [fmt(l.iter) for l in loops], key='%s|mark-outer' % rule)
         if len(loops) == 2:
-            ctx.require(fmt(loops[1].iter).endswith('.pos_handler.positions') or fmt(loops[1].iter).endswith('.pos_handler.positions.keys()')
-                        or fmt(loops[1].iter).startswith('LIST(') and '.pos_handler.positions' in fmt(loops[1].iter),
-                        rule, 'the mark loop runs over every held asset', loops[1].site, fmt(loops[1].iter), key='%s|mark-inner' % rule)
+            inner_ok = fmt(loops[1].iter).endswith('.pos_handler.positions') or fmt(loops[1].iter).endswith('.pos_handler.positions.keys()') \
+                or fmt(loops[1].iter).startswith('LIST(') and '.pos_handler.positions' in fmt(loops[1].iter)
+            if not inner_ok and not narrowed(loops[1].iter):
+                ctx.undecided(rule, 'the mark loop runs over every held asset', loops[1].site, 'unrecognised iteration: %s' % fmt(loops[1].iter)[:120])
+                continue
+            ctx.require(inner_ok, rule, 'the mark loop runs over every held asset', loops[1].site, fmt(loops[1].iter), key='%s|mark-inner' % rule)
             for l in loops:
                 ctx.require(all(b.outcome == 'fall' for b in l.paths), rule, 'the mark loop never breaks or skips', l.site, [b.describe() for b in l.paths][:3],
                             key='%s|mark-break' % rule)
